@@ -122,6 +122,11 @@ class SymMode:
     def implies(self, a, b):
         return (~SB.lift(a)) | SB.lift(b)
 
+    def same_computation_lt(self, a, b):
+        """a < b for two numbers that the code under test and the scenario obtain by the SAME sequence of
+        operations (so that natively the comparison is exact, without tolerance)."""
+        return SV.lift(a) < SV.lift(b)
+
     def ite(self, g, a, b):
         return core.ite(SB.lift(g), a, b)
 
@@ -321,7 +326,8 @@ class NativeMode:
 
     def __init__(self, inputs, tol=1e-9, pkg=None):
         self.pkg = pkg or native_pkg()
-        self.given = dict(inputs)
+        self.auto = bool(getattr(inputs, "auto", False))       # rt.gen.AutoGiven: missing names are drawn on demand
+        self.given = inputs if self.auto else dict(inputs)
         self.inputs = {}
         self.failures = []             # (name, meta)
         self.checks = 0
@@ -339,12 +345,12 @@ class NativeMode:
         return float(x)
 
     def real(self, name):
-        v = self._num(self.given.get(name, 0))
+        v = self._num(self.given.draw_real(name) if self.auto else self.given.get(name, 0))
         self.inputs[name] = v
         return v
 
     def bool(self, name):
-        v = self.given.get(name, False)
+        v = self.given.draw_bool(name) if self.auto else self.given.get(name, False)
         if isinstance(v, str):
             v = v.lower() == "true"
         v = bool(v)
@@ -352,7 +358,7 @@ class NativeMode:
         return v
 
     def int(self, name, lo=None, hi=None):
-        v = int(self._num(self.given.get(name, lo if lo is not None else 0)))
+        v = int(self._num(self.given.draw_int(name, lo, hi) if self.auto else self.given.get(name, lo if lo is not None else 0)))
         self.inputs[name] = v
         if (lo is not None and v < lo) or (hi is not None and v > hi):
             raise PreconditionNotMet(f"{name}={v} outside [{lo},{hi}]")
@@ -373,13 +379,15 @@ class NativeMode:
         d = draws_from_inputs(self.given)
         if d:
             return ReplayGenerator(d)
-        return np.random.default_rng(int(self.given.get("seed", 0)))
+        seed = self.given.draw_int("seed", 0, 1 << 30) if self.auto else self.given.get("seed", 0)
+        self.inputs.setdefault("seed", int(seed))
+        return np.random.default_rng(int(seed))
 
     def nonempty(self, it):
         return len(list(it)) > 0
 
     def bv(self, name, w):
-        v = int(self._num(self.given.get(name, 0))) & ((1 << w) - 1)
+        v = int(self._num(self.given.draw_bv(name, w) if self.auto else self.given.get(name, 0))) & ((1 << w) - 1)
         self.inputs[name] = v
         return v
 
@@ -410,6 +418,9 @@ class NativeMode:
 
     def implies(self, a, b):
         return (not bool(a)) or bool(b)
+
+    def same_computation_lt(self, a, b):
+        return float(a) < float(b)
 
     def ite(self, g, a, b):
         return a if bool(g) else b
